@@ -6,7 +6,7 @@
     per marked source line; all interleavings = all action sequences accepted by [run]/[reach].
     The cloud API is the fake that completes every tracked job when polled. *)
 From Coq Require Import List Bool Arith ZArith.
-From RV Require Import Model.ArrCounter Proofs.ArrCounterInv.
+From RV Require Import Model.ArrCounter Proofs.ArrCounterInv Model.ArrLife Proofs.ArrLifeInv.
 From RV Require Import Model.Monitor Proofs.MonitorBase Proofs.MonitorWitness Proofs.MonitorFixed.
 Import ListNotations.
 Open Scope list_scope.
@@ -101,6 +101,30 @@ Proof. exact unlocked_loses. Qed.
 Theorem C10_counter_locked_never_loses : ~ counter_loses arr_locked.
 Proof. exact locked_never_loses. Qed.
 
+(** ---- Life cycle of the arrayer thread ([Model/ArrLife.v]: _exit_flag, start, stop) ----
+    Any sequence of waves (jobs through the arrayer or bypassing it), monitor shut-downs in between
+    ([LStop], only when the arrayer holds nothing) and arrayer loop iterations. *)
+Theorem C10_arrayer_armed : forall js s, lreach ClearInStart (linit js) s ->
+  l_held s <> [] -> l_alive s = true /\ l_flag s = false.
+Proof. exact armed. Qed.
+
+Theorem C10_arrayer_all_submitted : forall js s, lreach ClearInStart (linit js) s ->
+  lstep ClearInStart s LSubmit = None -> lstep ClearInStart s LTick = None ->
+  forall j b, In (j, b) js -> In j (l_backend s).
+Proof. exact all_submitted. Qed.
+
+(** Exit flag cleared only by a stop() that joined a live thread: a stop() with no live arrayer
+    thread poisons the next start(); the job is never handed to the backend. *)
+Theorem C10_arrayer_refuted_clear_in_stop : life_loses ClearInStopIfAlive.
+Proof. exact clear_in_stop_loses. Qed.
+
+Theorem C10_arrayer_shipped_never_loses : ~ life_loses ClearInStart.
+Proof. exact shipped_never_loses. Qed.
+
+Print Assumptions C10_arrayer_armed.
+Print Assumptions C10_arrayer_all_submitted.
+Print Assumptions C10_arrayer_refuted_clear_in_stop.
+Print Assumptions C10_arrayer_shipped_never_loses.
 Print Assumptions C10_counter_exact.
 Print Assumptions C10_counter_exit_safe.
 Print Assumptions C10_counter_refuted_unlocked.
